@@ -102,8 +102,9 @@ def read_graph(graph_raw) -> nx.DiGraph:
     G.graph["constraints"] = constraint_subpaths
 
     if n == 0:
+        # No early return: the rest of the block is still parsed, so that constraints are validated and
+        # the counts are stored as for every other graph
         utils.logger.info(f"Graph {graph_id} has 0 vertices.")
-        return G
 
     # Parse edges: skip blanks and comment/header lines defensively
     for line in graph_raw[idx:]:
@@ -132,7 +133,7 @@ def read_graph(graph_raw) -> nx.DiGraph:
     G.graph["m"] = G.number_of_edges()
     # Lazy import here to avoid circular import at module load time
     from flowpaths import stdigraph as _stdigraph  # type: ignore
-    G.graph["w"] = _stdigraph.stDiGraph(G).get_width()
+    G.graph["w"] = _stdigraph.stDiGraph(G).get_width() if G.number_of_edges() > 0 else 0
 
     return G
 
